@@ -10,7 +10,7 @@ values in the R-tier / replay.
 
 class LoopSpec(object):
     def __init__(self, ordinal, invariants=(), decreases=None, summarise=None, types=None,
-                 havoc=(), unroll=None, item_type=None, note=None, ghost=None, frame=None, abstract=None, hints=(), sk_hints=()):
+                 havoc=(), unroll=None, item_type=None, note=None, ghost=None, frame=None, abstract=None, hints=(), sk_hints=(), exit_assume=()):
         self.ordinal = ordinal
         self.invariants = list(invariants)   # [(name, expr)]
         self.decreases = decreases
@@ -22,6 +22,7 @@ class LoopSpec(object):
         self.note = note
         self.ghost = ghost
         self.frame = frame
+        self.exit_assume = list(exit_assume)   # [(name, expr)] protocol facts ASSUMED when an iterator loop is exhausted
         self.sk_hints = list(sk_hints)    # same, relative to the bound variables of the goal being proved
         self.hints = list(hints)          # expressions (positions) at which quantified facts are instantiated
         self.abstract = abstract          # {"assume": [(name, expr)], "why": text}: loop replaced by an ASSUMED summary
@@ -64,6 +65,7 @@ class Contract(object):
         self.model_ = None           # python callable(interp, call_env) -> result: programmable ASSUMED behaviour of a callee
         self.init_fields_ = None     # for __init__ contracts: field -> type of the constructed object
         self.native_checks = []
+        self.shards_ = 1             # path exploration of this function is split over this many worker processes
 
     # ---- declaration helpers (fluent) ----
     def args(self, **types):
@@ -122,6 +124,10 @@ class Contract(object):
 
     def cases(self, *cases):
         self.cases_ = list(cases)
+        return self
+
+    def shards(self, n):
+        self.shards_ = n
         return self
 
     def inline(self):
